@@ -32,9 +32,11 @@ impl Server {
             eprintln!("unable to read TCP stream {}", &message);
 
             let raw_response = Server::bad_request_response(message);
-            let boxed_stream = stream.write(raw_response.borrow());
+            let boxed_stream = stream.write_all(raw_response.borrow());
             if boxed_stream.is_ok() {
-                stream.flush().unwrap();
+                if stream.flush().is_err() {
+                    eprintln!("unable to flush TCP stream");
+                }
             };
             return raw_response;
         }
@@ -52,9 +54,11 @@ impl Server {
             eprintln!("unable to parse request: {}", &message);
 
             let raw_response = Server::bad_request_response(message);
-            let boxed_stream = stream.write(raw_response.borrow());
+            let boxed_stream = stream.write_all(raw_response.borrow());
             if boxed_stream.is_ok() {
-                stream.flush().unwrap();
+                if stream.flush().is_err() {
+                    eprintln!("unable to flush TCP stream");
+                }
             };
             return raw_response;
         }
@@ -68,9 +72,11 @@ impl Server {
         println!("{}", log_request_response);
         let raw_response = Response::generate_response(response, request);
 
-        let boxed_stream = stream.write(raw_response.borrow());
+        let boxed_stream = stream.write_all(raw_response.borrow());
         if boxed_stream.is_ok() {
-            stream.flush().unwrap();
+            if stream.flush().is_err() {
+                eprintln!("unable to flush TCP stream");
+            }
         };
 
         raw_response
@@ -115,9 +121,12 @@ impl Server {
         if boxed_read.is_err() {
             let read_message = boxed_read.err().unwrap().to_string();
             let raw_response = Server::bad_request_response(read_message.clone());
-            let boxed_stream = stream.write(raw_response.borrow());
+            let boxed_stream = stream.write_all(raw_response.borrow());
             if boxed_stream.is_ok() {
-                stream.flush().unwrap();
+                let boxed_flush = stream.flush();
+                if boxed_flush.is_err() {
+                    return Err(boxed_flush.err().unwrap().to_string());
+                }
             } else {
                 let write_message = boxed_stream.err().unwrap().to_string();
                 let combined_error = [read_message.clone(), SYMBOL.comma.to_string(), write_message].join(SYMBOL.empty_string);
@@ -139,9 +148,12 @@ impl Server {
             let message = boxed_request.err().unwrap();
 
             let raw_response = Server::bad_request_response(message.clone());
-            let boxed_stream = stream.write(raw_response.borrow());
+            let boxed_stream = stream.write_all(raw_response.borrow());
             if boxed_stream.is_ok() {
-                stream.flush().unwrap();
+                let boxed_flush = stream.flush();
+                if boxed_flush.is_err() {
+                    return Err(boxed_flush.err().unwrap().to_string());
+                }
             } else {
                 let write_message = boxed_stream.err().unwrap().to_string();
                 let combined_error = [message, SYMBOL.comma.to_string(), write_message].join(SYMBOL.empty_string);
@@ -156,15 +168,19 @@ impl Server {
         let app_processing = app.execute(&request, &connection);
         if app_processing.is_err() {
             let message = app_processing.as_ref().err().unwrap().to_string();
-            let response = Server::bad_request_response(message);
+            let response = Server::bad_request_response(message.clone());
 
-            let boxed_stream = stream.write(response.borrow());
+            let boxed_stream = stream.write_all(response.borrow());
             if boxed_stream.is_ok() {
-                stream.flush().unwrap();
+                let boxed_flush = stream.flush();
+                if boxed_flush.is_err() {
+                    return Err(boxed_flush.err().unwrap().to_string());
+                }
             } else {
                 let write_message = boxed_stream.err().unwrap().to_string();
                 return Err(write_message);
             };
+            return Err(message);
         }
         let response = app_processing.unwrap();
 
@@ -176,9 +192,12 @@ impl Server {
 
         let raw_response = Response::generate_response(response, request);
 
-        let boxed_stream = stream.write(raw_response.borrow());
+        let boxed_stream = stream.write_all(raw_response.borrow());
         if boxed_stream.is_ok() {
-            stream.flush().unwrap();
+            let boxed_flush = stream.flush();
+            if boxed_flush.is_err() {
+                return Err(boxed_flush.err().unwrap().to_string());
+            }
         } else {
             let write_message = boxed_stream.err().unwrap().to_string();
             return Err(write_message);
